@@ -41,6 +41,9 @@ CHECKS = {
  "C09": ("exploration", "runtime monitoring: Go race detector + writer-count monitor on hook events + lock-state hook at quiescent points + state-based deadlock detector, over N readers x M writers x Close stress",
          "Free-running N readers x M writers (commit/rollback/close/failing commit) plus a concurrent File.Close and open-time max-size updates, always under the race detector with an Observer; monitors: at most one active writer (hook events), lock state idle when no transaction is open, deadlock declared only from state facts (no progress, all workers parked on go-txfile locks), any race report is a violation.",
          "DESIGN.md 4 (C09)", SIM + "; Go race detector"),
+ "C18": ("exploration", "runtime monitoring on the real OS file system: independent flock probes + logical-clock ordering of waiting opens + strace syscall fault injection (thorough)",
+         "Generated open/second-open/waiting-open/failing-open/close sequences on real temp files; an independent flock probe decides whether the path lock is held or free after every step; failing opens cover invalid options, damaged/truncated files, out-of-range meta roots and size errors; the thorough tier adds helper processes with pwrite/fsync/mmap/ftruncate/fstat/flock/openat failures injected by strace during initialisation.",
+         "DESIGN.md 4 (C18)", "trusted: advisory flock semantics of the sandbox file system; strace injection may hit the Go runtime (then inconclusive)"),
  "C03": ("exploration", "runtime monitoring: model-based differential execution on a simulated disk with controlled writer stalls (+race detector slice)",
          "Real txfile code is driven by PRNG-generated transaction programs on a simulated disk; a sequential page model is compared in a read transaction after every transaction end, on every in-transaction read and after reopen, while a gate stalls the background writer so that several transactions' page writes share one writer batch. Held-on-explored-executions assurance; right level because the property quantifies over histories and writer timings that cannot be enumerated.",
          "DESIGN.md 4 (C03)", SIM),
